@@ -1066,7 +1066,7 @@ mod c08_shift {
     fn val(v: &VecZnx<Vec<u8>>) -> i128 {
         ((v.at(0, 0)[0] as i128) << B) + v.at(0, 1)[0] as i128
     }
-    fn check(res: &VecZnx<Vec<u8>>, va: i128, off: i64) {
+    fn check(res: &VecZnx<Vec<u8>>, va: i128, off: i64, op: u8) {
         let mut j = 0;
         while j < S {
             let d = res.at(0, j)[0];
@@ -1079,14 +1079,18 @@ mod c08_shift {
         let m: i128 = 1i128 << ((B * S) as u32 + neg);
         let unit: i128 = 1i128 << neg;
         let e = ((vr << neg) - (va << pos)).rem_euclid(m);
-        assert!(e <= unit || e >= m - unit, "C08:shift result == a * 2^(+-k) on the torus within one unit of the last limb");
+        let good = e <= unit || e >= m - unit;
+        assert!(op != 0 || good, "C08:vec_znx_lsh == a * 2^k on the torus within one unit of the last limb");
+        assert!(op != 1 || good, "C08:vec_znx_rsh == a * 2^-k on the torus within one unit of the last limb");
+        assert!(op != 2 || good, "C08:vec_znx_lsh_assign == a * 2^k on the torus within one unit of the last limb");
+        assert!(op != 3 || good, "C08:vec_znx_rsh_assign == a * 2^-k on the torus within one unit of the last limb");
     }
     fn input() -> (VecZnx<Vec<u8>>, i128) {
         let mut a: VecZnx<Vec<u8>> = VecZnx::alloc(1, 1, S);
         let mut j = 0;
         while j < S {
             let x: i64 = kani::any();
-            kani::assume(x >= -(1 << (B - 1)) && x < (1 << (B - 1))); // normalised input (shifts document normalised inputs)
+            kani::assume(x > -(1 << 12) && x < (1 << 12)); // inputs need not be normalised
             a.at_mut(0, j)[0] = x;
             j += 1;
         }
@@ -1101,18 +1105,42 @@ mod c08_shift {
         r.at_mut(0, 0)[0] = kani::any();
         r.at_mut(0, 1)[0] = kani::any();
         vec_znx_lsh::<_, _, ZnxRef, true>(B, k, &mut r, 0, &a, 0, &mut carry);
-        check(&r, va, k as i64);
+        check(&r, va, k as i64, 0);
+        if k.div_ceil(B) <= S {
+            // (amounts that leave an empty limb position between input and output: separate harness c08_rsh_gap__*, DESIGN §6-10)
+            let mut r2: VecZnx<Vec<u8>> = VecZnx::alloc(1, 1, S);
+            r2.at_mut(0, 0)[0] = kani::any();
+            r2.at_mut(0, 1)[0] = kani::any();
+            vec_znx_rsh::<_, _, ZnxRef, true>(B, k, &mut r2, 0, &a, 0, &mut carry);
+            check(&r2, va, -(k as i64), 1);
+        }
+        let mut li = a.clone();
+        vec_znx_lsh_assign::<_, ZnxRef>(B, k, &mut li, 0, &mut carry);
+        check(&li, va, k as i64, 2);
+        let mut ri = a.clone();
+        vec_znx_rsh_assign::<_, ZnxRef>(B, k, &mut ri, 0, &mut carry);
+        check(&ri, va, -(k as i64), 3);
+    }
+    fn rsh_gap_case(k: usize) {
+        let (a, va) = input();
+        let mut carry = [0i64; 4];
         let mut r2: VecZnx<Vec<u8>> = VecZnx::alloc(1, 1, S);
         r2.at_mut(0, 0)[0] = kani::any();
         r2.at_mut(0, 1)[0] = kani::any();
         vec_znx_rsh::<_, _, ZnxRef, true>(B, k, &mut r2, 0, &a, 0, &mut carry);
-        check(&r2, va, -(k as i64));
-        let mut li = a.clone();
-        vec_znx_lsh_assign::<_, ZnxRef>(B, k, &mut li, 0, &mut carry);
-        check(&li, va, k as i64);
-        let mut ri = a.clone();
-        vec_znx_rsh_assign::<_, ZnxRef>(B, k, &mut ri, 0, &mut carry);
-        check(&ri, va, -(k as i64));
+        check(&r2, va, -(k as i64), 1);
+    }
+    #[kani::proof]
+    #[kani::unwind(8)]
+    #[kani::stub(alloc::fmt::format, fmt_stub)]
+    fn c08_rsh_gap__b4_s2_k9() {
+        rsh_gap_case(9);
+    }
+    #[kani::proof]
+    #[kani::unwind(8)]
+    #[kani::stub(alloc::fmt::format, fmt_stub)]
+    fn c08_rsh_gap__b4_s2_k13() {
+        rsh_gap_case(13);
     }
     macro_rules! shift_harness {
         ($name:ident, $k:expr) => {
